@@ -246,7 +246,8 @@ def _pair_grids(run):
     for i in range(K):
         for j in range(K):
             for k in range(K):
-                if i == j or j == k or i == k:          # triples with at least two equal kinds (the rest adds nothing)
+                # triples with at least two equal kinds, or drawn from the kinds that differ only in an ancestor's location
+                if i == j or j == k or i == k or min(i, j, k) >= 10:
                     yield f"pcons fsi 3 {i} {j} {k}"
 
 
